@@ -55,6 +55,7 @@ implementation-defined in Go (on amd64 it gives the most negative integer): 1e19
 					x := rootObj(info, call.Args[0])
 					xtxt := types.ExprString(call.Args[0])
 					bounded := false
+					signed := false
 					for k := len(stack) - 2; k >= 0; k-- {
 						var cond ast.Expr
 						switch y := stack[k].(type) {
@@ -71,6 +72,14 @@ implementation-defined in Go (on amd64 it gives the most negative integer): 1e19
 							continue
 						}
 						ast.Inspect(cond, func(m ast.Node) bool {
+							if c2, ok := m.(*ast.CallExpr); ok && len(c2.Args) >= 1 {
+								switch fullName(callee(info, c2)) {
+								case "math.Signbit", "math.Copysign", "math.Float64bits":
+									if x != nil && rootObj(info, c2.Args[len(c2.Args)-1]) == x || rootObj(info, c2.Args[0]) == x && x != nil {
+										signed = true
+									}
+								}
+							}
 							b, ok := m.(*ast.BinaryExpr)
 							if !ok {
 								return true
@@ -95,6 +104,12 @@ implementation-defined in Go (on amd64 it gives the most negative integer): 1e19
 						s.Pass(nil, key, call.Pos(), "the conversion lies under a comparison bounding the magnitude of the number")
 					} else {
 						s.Fail(nil, key, call.Pos(), "a float64 read from the file is converted to an integer whatever its magnitude: beyond the range of int the result is implementation-defined (amd64: the most negative integer) — {\"n\":1e19} is read back as -9223372036854775808")
+					}
+					keyZ := fmt.Sprintf("%s:int(float)#%d:negative-zero-kept", funcName(p, fd), n)
+					if signed {
+						s.Pass(nil, keyZ, call.Pos(), "the condition of the conversion looks at the sign bit of the number: -0 stays a float")
+					} else {
+						s.Fail(nil, keyZ, call.Pos(), "-0.0 is integral and small, so it is converted: int(-0.0) is 0 and the sign the writer had printed is lost — obiannotate -S 'x=-0.0' writes {\"x\":-0}, obiconvert of that file writes {\"x\":0}: write-after-read is not a fixed point (the nested [-0] of the same record is kept)")
 					}
 					return true
 				})
